@@ -105,7 +105,7 @@ func (eval *Evaluator) GetRLWEParameters() *Parameters {
 
 // CheckAndGetGaloisKey returns an error if the [GaloisKey] for the given Galois element is missing or the [EvaluationKey] interface is nil.
 func (eval *Evaluator) CheckAndGetGaloisKey(galEl uint64) (evk *GaloisKey, err error) {
-	if eval.EvaluationKeySet != nil {
+	if !utils.IsNil(eval.EvaluationKeySet) {
 		if evk, err = eval.GetGaloisKey(galEl); err != nil {
 			return nil, fmt.Errorf("%w: key for galEl %d = 5^{%d} key is missing", err, galEl, eval.params.SolveDiscreteLogGaloisElement(galEl))
 		}
@@ -129,7 +129,7 @@ func (eval *Evaluator) CheckAndGetGaloisKey(galEl uint64) (evk *GaloisKey, err e
 
 // CheckAndGetRelinearizationKey returns an error if the [RelinearizationKey] is missing or the [EvaluationKey] interface is nil.
 func (eval Evaluator) CheckAndGetRelinearizationKey() (evk *RelinearizationKey, err error) {
-	if eval.EvaluationKeySet != nil {
+	if !utils.IsNil(eval.EvaluationKeySet) {
 		if evk, err = eval.GetRelinearizationKey(); err != nil {
 			return nil, fmt.Errorf("%w: relineariztion key is missing", err)
 		}
